@@ -236,7 +236,10 @@ var c03 = gen.Register(&gen.Check[caseC03]{
 		c.Data = hex.EncodeToString(data)
 		if c.Decoder == "hex" {
 			txt := c.Data
-			switch gen.Pick(t, "hexKind", 8) {
+			switch gen.Pick(t, "hexKind", 10) {
+			case 8, 9: // what "lenient" parsers tolerate around a hex string: prefixes, suffixes, separators, quotes, white space
+				deco := [][2]string{{"0x", ""}, {"0X", ""}, {"", "\n"}, {" ", ""}, {"", " "}, {"\"", "\""}, {"#", ""}, {"\\x", ""}, {"", "h"}, {"0x", "\n"}, {"+", ""}, {"", "\x00"}, {"\ufeff", ""}, {"", "\r\n"}}[gen.Pick(t, "hexDeco", 14)]
+				txt = deco[0] + txt + deco[1]
 			case 0:
 				txt = strings.ToUpper(txt)
 			case 3: // two hex digits replaced by one 2-byte rune whose low code-point byte is a hex digit (same byte length)
@@ -288,6 +291,15 @@ var c03 = gen.Register(&gen.Check[caseC03]{
 				c.Text = c.Data
 			}
 			out = append(out, c)
+		}
+		// coordinates aimed at the constants found in the sources of the tree under test
+		for i, v := range gen.DictFixed(ref.P, 2*gen.DictStride()) {
+			data := append([]byte{byte(2 + i%2)}, ref.Bytes32(v)...)
+			kind := "dictionary-x"
+			if even, odd, ok := ref.LiftX(v); ok && i%3 == 0 {
+				data = ref.Uncompressed([]ref.Point{even, odd}[i%2])
+			}
+			out = append(out, caseC03{Data: hex.EncodeToString(data), Decoder: []string{"decode", "unmarshal", "compressed"}[i%3], Prior: prior, Kind: kind})
 		}
 		// very long inputs whose length is congruent to a valid length modulo 2^8 / 2^16 (length fields that get truncated)
 		for _, dec := range []string{"decode", "unmarshal", "hex"} {
